@@ -292,7 +292,24 @@ def line_safety(P, chk):
             cfg = bool(callers)
             for cb, cbb, ct in callers:
                 cs = q.chains(cb, ct["args"][1], stop=lambda r: "account" in r.fields)
-                if not cs or not all("account" in r.fields and (_config_root(cb, r) or any(n.endswith("ConfigSet::select") for n in [x for cn2, r2 in q.chains(cb, ct["args"][1]) for x in cn2])) for cn, r in cs):
+                okc_ = bool(cs) and all("account" in r.fields and (_config_root(cb, r) or any(n.endswith("ConfigSet::select") for n in [x for cn2, r2 in q.chains(cb, ct["args"][1]) for x in cn2])) for cn, r in cs)
+                if not okc_ and cb.is_closure:
+                    # the call sits in a closure (try_for_each over the transactions): the account is a captured variable,
+                    # judged where the closure is built
+                    okc_ = True
+                    rsx = q.roots_x(P, cb, ct["args"][1])
+                    if not rsx:
+                        okc_ = False
+                    for body_x, r in rsx:
+                        if r.kind == "call" and r.site is not None:
+                            # config_set.select(path)?.ok_or_else(..)? .account
+                            names_ = [str(r.name)] + [n for cn2, r2 in q.chains(body_x, body_x.term(r.site)["args"][0]) for n in cn2] \
+                                if body_x.term(r.site)["args"] else [str(r.name)]
+                            if not ("account" in r.fields and (_config_root(body_x, r) or any(n.endswith("ConfigSet::select") for n in names_))):
+                                okc_ = False
+                        elif not ("account" in r.fields and _config_root(body_x, r)):
+                            okc_ = False
+                if not okc_:
                     cfg = False
             origin = "config" if cfg else "statement"
             detail = "%d caller(s) pass the configured account" % len(callers)
@@ -395,6 +412,10 @@ def scale_rule(P, chk):
 
 def output_rule(P, chk):
     b = P.body(RUN)
+    if not [1 for bb, t in b.calls() if TODE in callee_names(t)]:
+        # `xacts.iter().try_for_each(|x| ..)`: judge run with the combinator written out as the loop it is
+        from analysis import desugar
+        b = desugar.desugared(P, RUN, closures_only=True)
     chk.analysed(b)
     imp = [(bb, t) for bb, t in b.calls() if callee_def(t) == "okane::import::import"]
     tde = [(bb, t) for bb, t in b.calls() if TODE in callee_names(t)]
@@ -432,6 +453,31 @@ def output_rule(P, chk):
             cs = q.chains(b, aggs[0][3]["fields"][0]["op"], stop=lambda r: "commodity" in r.fields)
             okc = bool(cs) and all(any(short(n) == "collect" for n in cn) and not set(short(n) for n in cn) & {"filter", "take", "skip"} for cn, r in cs) and \
                 all("commodity" in r.fields and "format" in r.fields for cn, r in cs)
+            if not okc:
+                # the map filled by an explicit loop: for (c, spec) in &config.format.commodity { m.insert(c.clone(), spec.precision) }
+                ml = q.named_local(b, aggs[0][3]["fields"][0]["op"])
+                ins = [(bb, t) for bb, t in b.calls() if short(callee_def(t)) == "insert" and "HashMap" in (callee_def(t) or "")
+                       and q.named_local(b, t["args"][0]) == ml]
+                lp = b.loops()
+                okc = len(ins) == 1 and ml is not None
+                if okc:
+                    ibb2, it2 = ins[0]
+                    hs = [h for h, blks in lp.items() if ibb2 in blks]
+                    okc = bool(hs)
+                    if okc:
+                        blks = lp[min(hs, key=lambda h: len(lp[h]))]
+                        nx2 = [x for x in blks if b.term(x)["k"] == "call" and callee_def(b.term(x)) == "std::iter::Iterator::next"]
+                        okc = len(nx2) == 1
+                        if okc:
+                            cs2 = q.chains(b, b.term(nx2[0])["args"][0], stop=lambda r: "commodity" in r.fields)
+                            okc = bool(cs2) and all("commodity" in r.fields and "format" in r.fields for cn, r in cs2) and \
+                                not set(short(n) for cn, r in cs2 for n in cn) & {"filter", "take", "skip", "filter_map", "rev", "step_by"} and \
+                                q.all_roots(b, it2["args"][1], lambda r: r.kind == "call" and r.site == nx2[0]) and \
+                                q.all_roots(b, it2["args"][2], lambda r: r.kind == "call" and r.site == nx2[0] and r.fields[-1:] == ("precision",))
+                            # every iteration inserts
+                            for (u, v) in b.back_edges():
+                                if v in hs and u in b.reach_from(v, without_blocks=(ibb2,)) and u != v:
+                                    okc = False
         okw = okw and okc
     chk.require(okw, R_OUT, "ImportCmd::run|printed with the configured precisions", b.loc(), "the transaction is not written through DisplayContext{precisions from config.format.commodity}",
                 "writeln!(w, ctx.as_display(&xact))")
